@@ -605,6 +605,41 @@ func raceChild(r *runner, p map[string]string) {
 						}
 						return tx.Commit()
 					})
+				case c < 62: // ONE read-write transaction used by several goroutines at once (a transaction object has its own mutex: its
+					// methods may be called concurrently): writes of the same keys, reads, scans
+					call("BeginTransaction(rw)+shared-by-3-goroutines+Commit", func() error {
+						tx, err := e.BeginTransaction(false)
+						if err != nil {
+							return err
+						}
+						ks := [][]byte{key(), key()}
+						var sg sync.WaitGroup
+						for w := 0; w < 3; w++ {
+							sg.Add(1)
+							go func(w int) {
+								defer sg.Done()
+								defer func() { recover() }()
+								for j := 0; j < 6; j++ {
+									k := ks[(w+j)%2]
+									switch (w + j) % 3 {
+									case 0:
+										tx.Put(k, []byte(fmt.Sprintf("shared-%d-%d-%d", t, w, j)))
+									case 1:
+										if v, err := tx.Get(k); err == nil {
+											_ = string(v) // reads the bytes
+										}
+									default:
+										it := tx.NewIterator()
+										for it.SeekToFirst(); it.Valid(); it.Next() {
+											_ = string(it.Value())
+										}
+									}
+								}
+							}(w)
+						}
+						sg.Wait()
+						return tx.Commit()
+					})
 				case c < 66: // read-only transaction
 					call("BeginTransaction(ro)+ops+Commit", func() error {
 						tx, err := e.BeginTransaction(true)
